@@ -72,6 +72,7 @@ type hist struct {
 	backdate         func(id uint64) bool // scenario override for the L0->L0 age filter
 	sawL0L0          bool                 // an L0->L0 compaction ran (re-sorts L0 by smallest key: finding F8)
 	sawSkip          bool                 // an L0->Lbase compaction skipped a non-empty level (finding F11)
+	resurrectShape   bool                 // the read being judged shows a key/version the reference hides
 }
 
 func entTerm(k []byte, ver uint64, meta, umeta byte, exp uint64, v []byte) string {
@@ -329,7 +330,9 @@ func (h *hist) sigFor(k []byte) string {
 			return "read-mismatch/same-key-version-written-twice"
 		}
 	}
-	if h.sawSkip {
+	if h.sawSkip && h.resurrectShape {
+		// finding F11 shows as a RESURRECTION only: the marker that hid an older version was
+		// dropped for lack of overlap below while that older version sat in the skipped level
 		return "F11-l0-to-base-skips-nonempty-level"
 	}
 	if h.o.Managed && h.nCompact > 0 {
@@ -380,7 +383,9 @@ func (h *hist) get(t int, k []byte) {
 	if !ok {
 		h.failed = true
 	}
+	h.resurrectShape = want == nil && got != nil
 	h.c.Oracle(ok, h.sigFor(k), "Get does not return the newest committed write at or below the read timestamp", J{"history": h.desc, "key": k})
+	h.resurrectShape = false
 }
 
 type itOpts struct {
@@ -536,6 +541,17 @@ func (h *hist) iterate(t int, o itOpts, seek []byte) {
 	if !ok {
 		h.failed = true
 	}
+	// a key the iterator yields although the reference hides it
+	wantKeys := map[string]bool{}
+	for _, w := range want {
+		wantKeys[string(w.Key)] = true
+	}
+	for _, x := range items {
+		if !wantKeys[string(x.Key)] {
+			h.resurrectShape = true
+		}
+	}
+	defer func() { h.resurrectShape = false }()
 	sig := "iter-mismatch"
 	for _, x := range append(append([]obsItem{}, items...), wantItems(want)...) {
 		if s := h.sigFor(x.Key); s != "read-mismatch" {
